@@ -38,7 +38,10 @@ RULE = ("corpus of 28 fixed links (C.J edges +-2044..2052, hole accounting, mult
         "no layout, jal with other link registers, the open findings) + generated 'maze' programs (quick 30, thorough 120: 2-9 blocks "
         "and 0-3 functions scattered over 1-3 objects and 1-3 code sections, gaps around the 2 KiB reach, relaxable and base jumps, "
         "branches, calls, abs/pc-relative data references, 1-2 code memories incl. adjacent ones) + 2 C programs compiled by ppci for "
-        "riscv:rvc. evaluation = one (unrelaxed, relaxed) link pair / one decoded reference / one emulated run / one model request; "
+        "riscv:rvc. every program is linked five times: unrelaxed and relaxed from fresh objects, relaxed AGAIN from the same in-memory "
+        "objects, a third time under a shifted layout, and from fresh objects under that layout (inputs must be untouched, relinks "
+        "identical). evaluation = one (unrelaxed, relaxed) link pair / one relink comparison / one decoded reference / one emulated "
+        "run / one model request; "
         "distinct non-trivial = distinct case with at least one hole")
 TRUSTED = [
     "hand model Model.Relax / Model.RelaxLink of ppci/binutils/linker.py (do_relaxations, _apply_relaxation_holes, do_relocations) and "
@@ -51,6 +54,8 @@ TRUSTED = [
     "'j'/'jal' to the base ISA, only the code generator emits the relaxable forms)",
 ]
 ASSUMPTIONS = [
+    "the model takes input objects as immutable values; that the real linker does not write to its inputs and that a second link of the "
+    "same in-memory objects equals the first is checked on every case (link:input-object-mutated, link:second-link-differs), not proved",
     "a section name occurs once in section_map and at most once in all images (hypothesis of the image theorems; C12 layout_placement)",
     "shrinkable relocation sites of a section do not overlap (SitesSeparated; true for assembler/code generator output)",
     "addresses, offsets and symbol values are non-negative (Nat in the model)",
@@ -190,41 +195,92 @@ def imgdata_of(img):
         return "!" + type(e).__name__
 
 
-def real_links(objs, layout_text, extra_symbols=None):
-    """The same link twice through ppci.api.link: with `Linker.do_relaxations` replaced by a no-op (U) and
-    unchanged (R).  PRE/POST are the destination object right before / after `do_relaxations`."""
+def snap_input(obj):
+    """own field walk over an INPUT object file (everything the linker reads)"""
+    return {
+        "sections": [[s.name, s.address, s.alignment, bytes(s.data).hex()] for s in obj.sections],
+        "symbols": [[s.id, s.name, s.binding, s.value, s.section, s.typ, s.size] for s in obj.symbols],
+        "relocs": [[r.reloc_type, r.symbol_id, r.section, r.offset, r.addend] for r in obj.relocations],
+        "images": [[i.name, i.address, [s.name for s in i.sections]] for i in obj.images],
+        "entry": obj.entry_symbol_id,
+    }
+
+
+def input_diff(before, objs):
+    """first difference between the input objects as they were and as they are now (None: untouched)"""
+    for k, (b, o) in enumerate(zip(before, objs)):
+        a = snap_input(o)
+        for key in b:
+            if a[key] != b[key]:
+                x, y = b[key], a[key]
+                if isinstance(x, list):
+                    i = next((i for i in range(min(len(x), len(y))) if x[i] != y[i]), min(len(x), len(y)))
+                    return f"object {k}: {key}[{i}] was {str(x[i:i+1])[:160]}, is {str(y[i:i+1])[:160]}"
+                return f"object {k}: {key} was {x}, is {y}"
+    return None
+
+
+def other_layout(layout_text):
+    """the same layout with every memory 1 MiB higher (all distances kept)"""
+    import re
+    if not layout_text:
+        return None
+    return re.sub(r"LOCATION=(0x[0-9a-fA-F]+)", lambda m: f"LOCATION={int(m.group(1), 16) + 0x100000:#x}", layout_text)
+
+
+def real_links(make, layout_text, extra_symbols=None):
+    """Links of one program through ppci.api.link.  `make()` builds fresh in-memory input objects.
+      U          fresh objects, `Linker.do_relaxations` replaced by a no-op from outside
+      R          fresh objects, unchanged linker; PRE/POST = destination object right before / after `do_relaxations`
+      R2         THE SAME in-memory objects linked again (PRE2 = its pre-relaxation object)
+      R3 / R3f   the same in-memory objects a third time under the shifted layout / fresh objects under that layout
+      mut_U, mut_R, mut_R2   first difference of the input objects after the link (None = inputs untouched)"""
     from ppci import api
     from ppci.binutils.linker import Linker
     from ppci.binutils.layout import Layout
     res = {}
     orig_relax, orig_dr = Linker.do_relaxations, Linker._do_relocation
     last = {}
+    pre_key = ["PRE"]
 
     def dr(self, relocation):
         last["r"] = [relocation.reloc_type, relocation.symbol_id, relocation.section, relocation.offset]
         return orig_dr(self, relocation)
 
     def relax_wrapped(self):
-        res["PRE"] = snap(self.dst)
+        res[pre_key[0]] = snap(self.dst)
         orig_relax(self)
-        res["POST"] = snap(self.dst)
+        if pre_key[0] == "PRE":
+            res["POST"] = snap(self.dst)
 
     def relax_off(self):
         res["PRE_U"] = snap(self.dst)
 
-    def lay():
-        return Layout.load(io.StringIO(layout_text)) if layout_text else None
+    def do(key, objs, fn, text):
+        Linker.do_relaxations = fn
+        last.clear()
+        before = [snap_input(o) for o in objs]
+        try:
+            lay = Layout.load(io.StringIO(text)) if text else None
+            res[key] = snap(api.link(objs, layout=lay, extra_symbols=dict(extra_symbols) if extra_symbols else None))
+        except Exception as e:  # noqa
+            res[key + "_exc"] = type(e).__name__
+            res[key + "_at"] = last.get("r")
+        res["mut_" + key] = input_diff(before, objs)
 
     try:
         Linker._do_relocation = dr
-        for key, fn in (("U", relax_off), ("R", relax_wrapped)):
-            Linker.do_relaxations = fn
-            last.clear()
-            try:
-                res[key] = snap(api.link(objs, layout=lay(), extra_symbols=dict(extra_symbols) if extra_symbols else None))
-            except Exception as e:  # noqa
-                res[key + "_exc"] = type(e).__name__
-                res[key + "_at"] = last.get("r")
+        do("U", make(), relax_off, layout_text)
+        objs = make()
+        do("R", objs, relax_wrapped, layout_text)
+        pre_key[0] = "PRE2"
+        do("R2", objs, relax_wrapped, layout_text)
+        alt = other_layout(layout_text)
+        if alt:
+            pre_key[0] = "PRE3"
+            do("R3", objs, relax_wrapped, alt)
+            pre_key[0] = "PRE3f"
+            do("R3f", make(), relax_wrapped, alt)
     finally:
         Linker.do_relaxations, Linker._do_relocation = orig_relax, orig_dr
     return res
@@ -756,11 +812,49 @@ def build_c_case(k):
 
 # ---------------------------------------------------------------------------------------------
 
+RESULT_KEYS = ("sections", "symbols", "relocs", "images", "values", "imgdata")
+
+
+def first_diff(a, b):
+    for k in RESULT_KEYS:
+        if a[k] != b[k]:
+            x, y = a[k], b[k]
+            i = next((i for i in range(min(len(x), len(y))) if x[i] != y[i]), min(len(x), len(y)))
+            return f"{k}[{i}]: {str(x[i:i+1])[:150]} / {str(y[i:i+1])[:150]}"
+    return None
+
+
+def relink_checks(ctx, case, res):
+    """The linker must not write to its inputs, and linking the same in-memory objects again (same layout, other
+    layout) must give what fresh objects give."""
+    for key in ("U", "R", "R2", "R3", "R3f"):
+        if res.get("mut_" + key):
+            ctx.fail("link:input-object-mutated",
+                     f"[{case['name']}] the {'unrelaxed' if key == 'U' else 'relaxed'} link ({key}) changed an input object: {res['mut_' + key]}", case)
+            break
+    ctx.count("eval_relink")
+    for again, fresh, sig, what in (("R2", "R", "link:second-link-differs", "linked a second time from the same in-memory objects"),
+                                    ("R3", "R3f", "link:relink-other-layout-differs", "linked again under a shifted layout")):
+        if again not in res and again + "_exc" not in res:
+            continue
+        if (again in res) != (fresh in res) or res.get(again + "_exc") != res.get(fresh + "_exc"):
+            ctx.fail(sig, f"[{case['name']}] {what}: {res.get(again + '_exc', 'ok')}, fresh objects: {res.get(fresh + '_exc', 'ok')}", case)
+        elif again in res:
+            d = first_diff(res[fresh], res[again])
+            if d:
+                ctx.fail(sig, f"[{case['name']}] {what} the result differs from the link of fresh objects at {d}", case)
+    # the model takes its inputs as immutable values: the second link must start from the same pre-relaxation object
+    if "PRE" in res and "PRE2" in res:
+        d = first_diff(res["PRE"], res["PRE2"])
+        if d:
+            ctx.disagree("second-link:pre-relaxation-object", case["name"], "differs from the first link at " + d, "identical (inputs are values)")
+
+
 def run_cases(ctx, cases, extra=()):
     """`extra`: further driver requests answered in the same driver run; their replies are returned"""
     built = []
     for case in cases:
-        try:
+        def make(case=case):
             objs = [build_object(l) for l in case["objs"]]
             if case.get("reverse_relocs"):                            # the order of relocation entries carries no meaning
                 for o in objs:
@@ -769,11 +863,15 @@ def run_cases(ctx, cases, extra=()):
                 objs[0].add_symbol(len(objs[0].symbols), name, "local", val, sec, "object", 0)
             if "csrc" in case:
                 objs.append(build_c_case(case["csrc"]))
+            return objs
+        try:
+            make()
         except Exception as e:  # noqa
             ctx.count("asm-fails")
             ctx.note(f"case {case['name']} does not assemble: {type(e).__name__}: {str(e)[:100]}")
             continue
-        res = real_links(objs, case.get("layout"), case.get("link_extra"))
+        res = real_links(make, case.get("layout"), case.get("link_extra"))
+        relink_checks(ctx, case, res)
         built.append((case, res))
     lines, plan = [], []
     evals = []
@@ -837,6 +935,8 @@ def run_cases(ctx, cases, extra=()):
             key, exk = {"plain": ("U", "U_exc"), "relax": ("POST", "R_exc"), "finish": ("R", "R_exc")}[op]
             if key in res:
                 cmp_obj(ctx, op, case, res[key], m)
+                if op == "finish" and "R2" in res:          # second link of the same objects = the model's (only) link
+                    cmp_obj(ctx, "finish:second-link", case, res["R2"], m)
                 if op == "relax" and "err" not in m:
                     ctx.count("model_holes", len(m["holes"]))
             elif "err" in m:
